@@ -1,6 +1,6 @@
 //! `vh fakecli <tok>…` — stand-in for `/usr/sbin/cli xml-mode netconf need-trailer`.
 //! Blocking std I/O. Tokens:  w:<hex> write+flush · s:<ms> sleep · r read one ]]>]]>-terminated
-//! message from stdin · eof exit(0) · abort (SIGKILL self) · hang sleep forever.
+//! message from stdin · closeout close stdout, stay alive · eof exit(0) · abort (SIGKILL self) · hang sleep forever.
 use std::io::{Read, Write};
 
 pub fn main(args: &[String]) {
@@ -52,6 +52,11 @@ pub fn main(args: &[String]) {
             // stop reading: the client's writes fail (EPIPE) while our output stays open and silent
             unsafe {
                 libc::close(0);
+            }
+        } else if tok == "closeout" {
+            let _ = out.flush();
+            unsafe {
+                libc::close(1);
             }
         } else if tok == "eof" {
             std::process::exit(0);
